@@ -684,6 +684,17 @@ func (e *evalEnv) describe(c EvalCase, res []string, rec *h.Rec) {
 	}
 }
 
+// perturbOps returns the operations in reverse order on shifted operands / rotation amounts.
+func perturbOps(ops []Op) []Op {
+	out := make([]Op, len(ops))
+	for i, op := range ops {
+		op.A, op.B = (op.A+1)%3, (op.B+2)%3
+		op.N = op.N%4 + 1
+		out[len(ops)-1-i] = op
+	}
+	return out
+}
+
 func runEvalCopy(c EvalCase, rec *h.Rec) error {
 	e, err := buildEvalEnv(c)
 	if err != nil {
@@ -746,6 +757,9 @@ func runEvalCopy(c EvalCase, rec *h.Rec) error {
 	// (3) independence: the original's whole reachable state must not change while the copy is used
 	before := takeSnapshot(orig.ptr())
 	got := e.runOps(cp, c.Ops)
+	// second life of the copy on OTHER operands, in reverse order: a scratch area shared with the original would now
+	// hold different contents than what the original itself left there
+	e.runOps(cp, perturbOps(c.Ops))
 	after := takeSnapshot(orig.ptr())
 
 	if i := firstDiff(want, got); i >= 0 && !tainted {
@@ -766,6 +780,12 @@ func runEvalCopy(c EvalCase, rec *h.Rec) error {
 			return h.Failf(key, "%s", msg)
 		}
 	}
+	if got2 := e.runOps(cp, c.Ops); !tainted {
+		if i := firstDiff(got, got2); i >= 0 {
+			return h.Failf(fmt.Sprintf("C10:%s.%s:copy-second-use:%s", tn, c.Mode, c.Ops[i].Kind),
+				"%s.%s: op #%d %+v on the copy gives %s the second time, %s the first time", tn, c.Mode, i, c.Ops[i], got2[i], got[i])
+		}
+	}
 	again := e.runOps(orig, c.Ops)
 	if i := firstDiff(origWant, again); i >= 0 {
 		return h.Failf(fmt.Sprintf("C10:%s.%s:original-results-changed:%s", tn, c.Mode, c.Ops[i].Kind),
@@ -778,7 +798,7 @@ func runEvalCopy(c EvalCase, rec *h.Rec) error {
 	return nil
 }
 
-var propEvalCopy = h.NewProp("TestPropEvaluatorCopy", h.Budget{Quick: 500, Thorough: 20000},
+var propEvalCopy = h.NewProp("TestPropEvaluatorCopy", h.Budget{Quick: 500, Thorough: 10000},
 	func(t *rapid.T) EvalCase { return genEvalCase(t, false) }, runEvalCopy)
 
 func TestPropEvaluatorCopy(t *testing.T) { propEvalCopy.Check(t) }
